@@ -253,6 +253,101 @@ def cmp_cjac(out, kind, want):
     return None
 
 
+JAC = {}
+
+
+def gfn(tp, **_):
+    """a 'gradient transform' that needs no executions and returns the Jacobian registered for the tape"""
+    return [], (lambda results: JAC[id(tp)])
+
+
+def exercise(rec, variant, attempt, controls=None):
+    """run one generated case through every applicable entry point; attempt(fname, sh, c, call, check, what) -> (out, why)"""
+    sh, c = rec["sh"], rec["c"]
+    M, K = len(sh["meas"]), len(sh["pars"])
+    mk = (lambda v: pnp.array(v, requires_grad=False)) if variant % 5 == 4 else np.array
+    dk, ek = case_class(c, sh)
+    scalar_pars = all(p == 0 for p in sh["pars"])
+    vjp_flat = [x for p in c["vjp"] for x in p]
+    dy_desc = f"dy = {c['dy']}, J = {c['J']}"
+    t_desc = f"tangent = {c['t']}, J = {c['J']}"
+    # ---- the convenience functions, per shot copy (no shot vector)
+    if sh["cop"] == 0 and K >= 1:
+        jac = jac_copy(sh, c["J"][0], mk)
+        tan = tangent_of(sh, c["t"], mk, variant)
+        if scalar_pars:
+            dy = dy_copy(sh, c["dy"][0], mk)
+            if M == 1:
+                num = (sh["meas"][0] or 1) if variant % 2 else None
+                attempt("compute_vjp_single", sh, c, lambda: compute_vjp_single(dy, jac, num=num),
+                        lambda o: same(o, vjp_flat, (K,)), dy_desc)
+            else:
+                attempt("compute_vjp_multi", sh, c, lambda: compute_vjp_multi(dy, jac), lambda o: same(o, vjp_flat, (K,)), dy_desc)
+        if M == 1:
+            out, why = attempt("compute_jvp_single", sh, c, lambda: compute_jvp_single(tan, jac),
+                               lambda o: cmp_jvp_copy(sh, o, c["jvp"][0]), t_desc)
+            if not why and rec["js"] and ek != "zero" and controls is not None and len(controls) < 30 and any(c["jvp"][0][0]):
+                controls.append((sh, out, c["jvp"]))
+        else:
+            attempt("compute_jvp_multi", sh, c, lambda: compute_jvp_multi(tan, jac), lambda o: cmp_jvp_copy(sh, o, c["jvp"][0]), t_desc)
+    # ---- batch_vjp / batch_jvp on a tape whose gradient transform returns J
+    if scalar_pars:
+        tp = make_tape(sh)
+        ncop = sh["cop"] or 1
+        JAC[id(tp)] = None if K == 0 else (jac_copy(sh, c["J"][0], np.array) if sh["cop"] == 0 else
+                                           tuple(jac_copy(sh, c["J"][cc], np.array) for cc in range(ncop)))
+        dys = dy_copy(sh, c["dy"][0], np.array) if sh["cop"] == 0 else tuple(dy_copy(sh, c["dy"][cc], np.array) for cc in range(ncop))
+        tan = np.array([float(x[0]) for x in c["t"]])
+        reduction = "extend" if variant % 4 == 3 else "append"
+
+        def chk_vjp(o):
+            if not isinstance(o, list):
+                return f"{type(o).__name__} instead of a list"
+            if K == 0:
+                return None if o == ([] if reduction == "extend" else [None]) else f"{o} for a tape without trainable parameters"
+            if reduction == "extend":
+                return same(o, vjp_flat, (K,))
+            return same(o[0], vjp_flat, (K,)) if len(o) == 1 else f"{len(o)} results for one tape"
+
+        attempt("batch_vjp", sh, c, lambda: batch_vjp([tp], [dys], gfn, reduction=reduction)[1]([]), chk_vjp, dy_desc)
+
+        def chk_jvp(o):
+            if not isinstance(o, tuple) or len(o) != 1:
+                return f"{type(o).__name__} of length {len(o)} instead of a 1-tuple (one tape)"
+            return cmp_jvp(sh, o[0], c["jvp"])
+
+        attempt("batch_jvp", sh, c, lambda: batch_jvp([tp], [tan], gfn)[1]([]), chk_jvp, t_desc)
+        JAC.pop(id(tp), None)
+
+
+def violation_key(fname, sh, c):
+    dk, ek = case_class(c, sh)
+    return f"{fname}:{shape_key(sh)}:{dk if 'vjp' in fname else ek}-{'cotangent' if 'vjp' in fname else 'tangent'}"
+
+
+def replay(path, tier, seed):
+    """re-run the case of a replay file (written by run) through the real code"""
+    rp = json.load(open(path))["replay"]
+    if "case" not in rp:
+        raise lib.MachineryError("this replay file describes a batch / classical_jacobian case; re-run the check instead")
+    viol = []
+
+    def attempt(fname, sh, c, f, check, what):
+        try:
+            out = f()
+            why = check(out)
+        except Exception as e:  # noqa: BLE001
+            out, why = None, f"raised {type(e).__name__}: {e}"
+        if why and fname == rp["function"]:
+            viol.append(Violation(key=violation_key(fname, sh, c), detail=f"{fname} on measurements {sh['meas']}, parameters {sh['pars']}, "
+                                  f"shot copies {sh['cop']}, {what}: {why}", replay=rp))
+        return out, why
+    exercise(rp["case"], rp["variant"], attempt)
+    return CheckResult(coverage={"states": 0, "transitions": 0, "traces_validated_against_impl": 0, "evaluations": 1, "distinct_nontrivial": 1,
+                                 "rule": "one replayed case (expected values computed by TLC in the original run)", "exhaustive": False,
+                                 "samples": []}, violations=viol)
+
+
 def run(tier, seed):
     quick = tier == "quick"
     rng = random.Random(seed)
@@ -278,13 +373,9 @@ def run(tier, seed):
             found[key] = [Violation(key=key, detail=detail, replay=replay), 1]
 
     calls = {}
+    cur = {}
     classes = {}
     nontriv, samples, controls = set(), [], []
-    JAC = {}
-
-    def gfn(tp, **_):
-        return [], (lambda results: JAC[id(tp)])
-
     def attempt(fname, sh, c, f, check, what):
         calls[fname] = calls.get(fname, 0) + 1
         try:
@@ -293,73 +384,23 @@ def run(tier, seed):
         except Exception as e:  # noqa: BLE001
             out, why = None, f"raised {type(e).__name__}: {e}"
         if why:
-            dk, ek = case_class(c, sh)
-            key = f"{fname}:{shape_key(sh)}:{dk if 'vjp' in fname else ek}-{'cotangent' if 'vjp' in fname else 'tangent'}"
-            report(key, f"{fname} on measurements {sh['meas']} (0 = scalar), parameters {sh['pars']}, shot copies {sh['cop']}, "
+            report(violation_key(fname, sh, c), f"{fname} on measurements {sh['meas']} (0 = scalar), parameters {sh['pars']}, shot copies {sh['cop']}, "
                         f"{what}: {why}", {"function": fname, "shape": sh, "J[copy][meas][param][out][par]": c["J"], "dy": c["dy"],
-                                           "tangent": c["t"], "expected_vjp": c["vjp"], "expected_jvp": c["jvp"]})
+                                           "tangent": c["t"], "expected_vjp": c["vjp"], "expected_jvp": c["jvp"],
+                                           "case": {"sh": sh, "c": c, "js": cur["js"], "n": cur["n"]}, "variant": cur["variant"]})
         return out, why
 
     for idx, rec in enumerate(cases):
         sh, c = rec["sh"], rec["c"]
         M, K = len(sh["meas"]), len(sh["pars"])
         variant = idx + rec["n"]
-        mk = (lambda v: pnp.array(v, requires_grad=False)) if variant % 5 == 4 else np.array
         dk, ek = case_class(c, sh)
         classes[(dk, ek)] = classes.get((dk, ek), 0) + 1
         if rec["js"] and (dk != "zero" or ek != "zero"):
             nontriv.add((json.dumps(sh), rec["js"], rec["n"]))
-        scalar_pars = all(p == 0 for p in sh["pars"])
         vjp_flat = [x for p in c["vjp"] for x in p]
-        dy_desc = f"dy = {c['dy']}, J = {c['J']}"
-        t_desc = f"tangent = {c['t']}, J = {c['J']}"
-        # ---- the convenience functions, per shot copy (no shot vector)
-        if sh["cop"] == 0 and K >= 1:
-            jac = jac_copy(sh, c["J"][0], mk)
-            tan = tangent_of(sh, c["t"], mk, variant)
-            if scalar_pars:
-                dy = dy_copy(sh, c["dy"][0], mk)
-                if M == 1:
-                    num = (sh["meas"][0] or 1) if variant % 2 else None
-                    attempt("compute_vjp_single", sh, c, lambda: compute_vjp_single(dy, jac, num=num),
-                            lambda o: same(o, vjp_flat, (K,)), dy_desc)
-                else:
-                    attempt("compute_vjp_multi", sh, c, lambda: compute_vjp_multi(dy, jac), lambda o: same(o, vjp_flat, (K,)), dy_desc)
-            if M == 1:
-                out, why = attempt("compute_jvp_single", sh, c, lambda: compute_jvp_single(tan, jac),
-                                   lambda o: cmp_jvp_copy(sh, o, c["jvp"][0]), t_desc)
-                if not why and rec["js"] and ek != "zero" and len(controls) < 30 and idx % 11 == 0 and any(c["jvp"][0][0]):
-                    controls.append((sh, out, c["jvp"]))
-            else:
-                attempt("compute_jvp_multi", sh, c, lambda: compute_jvp_multi(tan, jac), lambda o: cmp_jvp_copy(sh, o, c["jvp"][0]), t_desc)
-        # ---- batch_vjp / batch_jvp on a tape whose gradient transform returns J
-        if scalar_pars:
-            tp = make_tape(sh)
-            ncop = sh["cop"] or 1
-            JAC[id(tp)] = None if K == 0 else (jac_copy(sh, c["J"][0], np.array) if sh["cop"] == 0 else
-                                               tuple(jac_copy(sh, c["J"][cc], np.array) for cc in range(ncop)))
-            dys = dy_copy(sh, c["dy"][0], np.array) if sh["cop"] == 0 else tuple(dy_copy(sh, c["dy"][cc], np.array) for cc in range(ncop))
-            tan = np.array([float(x[0]) for x in c["t"]])
-            reduction = "extend" if variant % 4 == 3 else "append"
-
-            def chk_vjp(o):
-                if not isinstance(o, list):
-                    return f"{type(o).__name__} instead of a list"
-                if K == 0:
-                    return None if o == ([] if reduction == "extend" else [None]) else f"{o} for a tape without trainable parameters"
-                if reduction == "extend":
-                    return same(o, vjp_flat, (K,))
-                return same(o[0], vjp_flat, (K,)) if len(o) == 1 else f"{len(o)} results for one tape"
-
-            attempt("batch_vjp", sh, c, lambda: batch_vjp([tp], [dys], gfn, reduction=reduction)[1]([]), chk_vjp, dy_desc)
-
-            def chk_jvp(o):
-                if not isinstance(o, tuple) or len(o) != 1:
-                    return f"{type(o).__name__} of length {len(o)} instead of a 1-tuple (one tape)"
-                return cmp_jvp(sh, o[0], c["jvp"])
-
-            attempt("batch_jvp", sh, c, lambda: batch_jvp([tp], [tan], gfn)[1]([]), chk_jvp, t_desc)
-            JAC.pop(id(tp), None)
+        cur.update(js=rec["js"], n=rec["n"], variant=variant)
+        exercise(rec, variant, attempt, controls if idx % 11 == 0 else None)
         if len(samples) < 4 and rec["js"] and dk == "dense" and M == 2 and K == 2 and sh["cop"] in ((0, 2, 0, 2)[len(samples)],) \
                 and not any(sh["pars"]):
             samples.append({"measurement_sizes": sh["meas"], "parameters": K, "shot_copies": sh["cop"], "J[copy][meas][param][out][par]": c["J"],
